@@ -244,7 +244,14 @@ fn tls_connect_proxy(target_port: u16) -> u16 {
     port
 }
 
-pub fn generate(_seed: u64, tier: &str, sink: &mut Sink) {
+pub fn generate(seed: u64, tier: &str, sink: &mut Sink) {
+    generate_sel(seed, tier, sink, false)
+}
+
+/// `tunnels_only`: just the rows that go through the CONNECT proxy (used by C12: after the proxy has agreed, the
+/// TLS session inside the tunnel is verified against the ORIGIN's name — with real handshakes, flags set on the
+/// session, the request, or on a sibling request and a clone that are sent first on the same thread)
+pub fn generate_sel(_seed: u64, tier: &str, sink: &mut Sink, tunnels_only: bool) {
     let thorough = tier == "thorough";
     // (identity, chain ok given the root is added, time ok)
     // "pinned": the server presents the self-signed certificate and the caller adds THAT certificate as
@@ -285,6 +292,9 @@ pub fn generate(_seed: u64, tier: &str, sink: &mut Sink) {
                                     continue;
                                 }
                                 if !thorough && mode == "https-proxy" && (place == "request" || (*chain == "unknown")) {
+                                    continue;
+                                }
+                                if tunnels_only && (mode != "connect" || host_kind == "ipv6-literal" || *chain == "pinned" || (!thorough && aic && place != "sibling")) {
                                     continue;
                                 }
                                 rows.push((ci, name_ok, host_kind, aic, aih, root_added, mode, place));
@@ -355,7 +365,7 @@ pub fn generate(_seed: u64, tier: &str, sink: &mut Sink) {
                 clone.danger_accept_invalid_hostnames(aih);
                 // the sibling and a request of the clone are really sent first (whatever they set up for
                 // their own handshakes must not be found by the session's next request)
-                if thorough || mode == "direct" {
+                if thorough || mode == "direct" || tunnels_only {
                     let _ = sib.send();
                     let _ = clone.get(&url).send();
                 } else {
